@@ -92,6 +92,7 @@ func TestVerifC13MQTTProxy(t *testing.T) {
 			}
 			p := pobj.(*pipeline.Pipeline)
 			if bad, _, _, _ := vfRecoverRoot(func() { p.Init(pspec, vfMapper) }); bad {
+				vfCloseQuietly(vf, "MQTT pipeline after a failed Init", func() { p.Close() })
 				continue // pipeline findings are the Pipeline test's business
 			}
 			mapper.m[pn] = &vfGuardedHandler{p: p}
@@ -159,6 +160,7 @@ func TestVerifC13MQTTProxy(t *testing.T) {
 		mp := obj.(*mqttproxy.MQTTProxy)
 		dk := "mqttproxy|" + strings.Join(g.Present(), ",") + "|" + strings.Join(g.Bounds(), ",")
 		if pn, txt, site, fk := vfRecoverRoot(func() { mp.Init(spec, mapper) }); pn {
+			vfCloseQuietly(vf, "MQTTProxy after a failed Init", func() { mp.Close() }) // listener / broker created before the panic
 			// a listener that cannot be opened on a plain TCP port is the environment (port taken)
 			validTLS := false
 			if cs, ok := tree["certificate"].([]interface{}); ok {
